@@ -215,6 +215,19 @@ def exclusions (d : Doc2 Json) : List String :=
   (if (opParams d).any (fun p => p.loc == "formData" && p.required) then ["FormRequiredLost"] else []) ++
   (if (opParams d).any (fun p => p.loc == "formData" && p.cons.fmt.isSome && p.cons.ty != some "file") then ["FormFormatLost"] else []) ++
   (if (sharedVals d).any (fun p => p.loc == "formData" && p.cons.ty != some "file") then ["SharedFormParamNotFile"] else []) ++
+  (if d.params.any (fun (k, p) => match p with
+        | .val q => q.loc == "formData" && (alookup k d.defs).isSome
+        | _ => false)
+   then ["SharedFormParamDefClash"] else []) ++
+  (if (opParams d ++ sharedVals d).any (fun p => p.loc == "body" && p.schema.isNone) then ["BodyWithoutSchema"] else []) ++
+  (if d.paths.any (fun p => p.ops.any (fun o =>
+        o.params.any (fun q => match q with
+          | .val v => v.loc == "body" || v.loc == "formData"
+          | .ref _ n => match alookup n d.params with | some (.val v) => v.loc == "body" || v.loc == "formData" | _ => false) &&
+        ["body", "requestBody"].all (fun nm => o.params.any (fun q => match q with
+          | .val v => v.loc != "body" && v.loc != "formData" && v.name == nm
+          | .ref _ n => match alookup n d.params with | some (.val v) => v.loc != "body" && v.loc != "formData" && v.name == nm | _ => false))))
+   then ["BodyNameClash"] else []) ++
   (if d.responses.any (fun (_, r) => respLosesSchema d.produces r) ||
       d.paths.any (fun p => p.ops.any (fun o => o.responses.any (fun (_, r) => respLosesSchema o.produces r)))
    then ["ResponseSchemaNonJSON"] else []) ++
@@ -272,10 +285,12 @@ def handle (j : Json) : Json :=
   let model := match toV3 d with
     | .error e => jobj [("toV3", "error"), ("why", e)]
     | .ok d3 =>
-      match fromV3 d3 with
-      | none => jobj [("toV3", "ok"), ("validates", Json.bool (validates3 d3)), ("api3", apiJson (api3 d3)),
-                      ("fromV3", "panic")]
-      | some back =>
+      match fromV3Full d3 with
+      | .panic => jobj [("toV3", "ok"), ("validates", Json.bool (validates3 d3)), ("api3", apiJson (api3 d3)),
+                        ("fromV3", "panic")]
+      | .error => jobj [("toV3", "ok"), ("validates", Json.bool (validates3 d3)), ("api3", apiJson (api3 d3)),
+                        ("fromV3", "error")]
+      | .ok back =>
         jobj [("toV3", "ok"), ("validates", Json.bool (validates3 d3)), ("api3", apiJson (api3 d3)),
               ("fromV3", "ok"), ("back", apiJson (api2 back)), ("badRefs", jstrs (badRefs back))]
   jobj [
